@@ -20,7 +20,8 @@ Inductive ccase :=
 | CPdf (v : pdf_view) (impl : bool)                    (* read_pdf raised the encrypted error *)
 | CPad (bs : nat) (d : bytes) (impl : bytes)           (* _pkcs7_pad *)
 | CUnpad (bs : nat) (d : bytes) (impl : option bytes)  (* _pkcs7_unpad; None = ValueError *)
-| CAtt (l : list att) (n : nat) (enc : bool).         (* one invocation of iterate_supported_attachments *)
+| CAtt (l : list att) (n : nat) (enc : bool)
+| CPdfStep (e : pdf_env) (installed0 : bool) (impl : N) (installed : bool).  (* 0 dependency / 1 rejected / 2 pages; AES installed afterwards *)         (* one invocation of iterate_supported_attachments *)
 
 Definition doc_code (r : doc_res) : N := match r with DocEncrypted => 0 | DocNotDoc => 1 | DocContinue => 2 end.
 Definition zout_code (o : zout) : N := match o with ZDone => 0 | ZEncrypted => 1 | ZFailed => 2 end.
@@ -40,6 +41,12 @@ Definition corr_case_gen (legacy : bool) (c : ccase) : bool :=
   | CEpub v impl => Bool.eqb (epub_detect_gen legacy v) impl
   | CPdf v impl => Bool.eqb (pdf_detect v) impl
   | CPad bs d impl => str_eqb (pkcs7_pad bs d) impl
+  | CPdfStep e i0 impl inst =>
+      match pdf_decide true e i0 with
+      | PdfDependency => impl =? 0
+      | PdfRejected i => (impl =? 1) && Bool.eqb i inst
+      | PdfPages i => (impl =? 2) && Bool.eqb i inst
+      end
   | CAtt l n enc => let '(k, e) := att_run l in Nat.eqb k n && Bool.eqb e enc
   | CUnpad bs d impl =>
       match pkcs7_unpad bs d, impl with
